@@ -343,7 +343,10 @@ def check(prop, tier, seed, replay, t0):
     rep_file = os.path.join(rep_path, "%s.json" % prop)
     if os.path.exists(rep_file):
         os.remove(rep_file)
-    env = dict(GOENV, VERIF_REPLAY_DIR=os.path.join(BUILD, "replay"), VERIF_REPO=REPO)
+    env = dict(GOENV, VERIF_REPLAY_DIR=os.path.join(BUILD, "replay"), VERIF_REPO=REPO,
+               VERIF_CONVERGEN_BIN=os.path.join(BUILD, "bin", "convergen"),
+               VERIF_MODEL_DRIVER=os.path.join(BUILD, "ocaml", "model_driver"),
+               VERIF_CORPUS=os.path.join(VERIF, "corpus"))
     cmd = [os.path.join(BUILD, "bin", "vh"), prop, "-tier", tier, "-seed", str(seed), "-report", rep_file]
     if replay:
         cmd += ["-replay", replay]
